@@ -133,6 +133,7 @@ func genC16(t *Tape, tier string) *Scenario {
 	if len(x.Body) > 1 && t.Chance(1, 10) {
 		gap = 6 * time.Minute
 		sc.Srv.ReadTO = 0
+		sc.Srv.WriteTO = []Dur{0, 30 * time.Second, 10 * time.Minute}[t.Intn(3)] // governs replies only
 		if len(parts) == 0 {
 			parts = []int{1 + t.Intn(len(x.Body)-1), len(x.Body)}
 		}
